@@ -326,6 +326,13 @@ def search_skeleton(ctx, F, ty, rule, lin):
     ck = [c for c in b.calls_to('BTreeMap::contains_key') if c.bb in body]
     if inv:
         ok = len(ck) == 1 and b.edges_dominate(b.branch(ck[0], True), inv[0].bb, frm=[ck[0].bb])
+        if not ok:
+            # ... or by looking the entry up: `let Some(..) = in_flight.get(thread) else { continue }`, or taking
+            # it out and testing the result
+            for g in [c for c in b.calls_to('BTreeMap::get', 'BTreeMap::remove', 'BTreeMap::get_mut') if c.bb in body]:
+                se = b.branch(g, 'Some')
+                if se and b.edges_dominate(se, inv[0].bb):
+                    ok = True
         ctx.check(ok, rule, 'in-flight-branch-needs-in-flight-op', b,
                   good='the in-flight branch is taken only when the thread has an operation in flight',
                   bad='%s::serialize takes the in-flight branch without checking that an operation is in flight' % short)
